@@ -172,6 +172,8 @@ def build(tier):
         if ('update_channel_state' in o.name and 'merges=2' not in o.name) or 'collect' in o.name:
             O.append(Obligation(o.name, o.run, money_only(o.props), descr='C01 clauses of: ' + o.descr, bounds=o.bounds,
                                 max_paths=o.max_paths, scenario=o.scenario, wall_s=getattr(o, 'wall_s', None)))
+    from . import market_batch
+    O += market_batch.build_for('C01', tier)
     O.append(Obligation('reward.award_block_reward', run_award, props_award,
                         descr='reward paid = min(gas + epoch reward share, balance); never more than held; undeliverable reward burnt; total counter exact; always Ok',
                         bounds='one call; state/params symbolic; both nested sends may fail', max_paths=20000))
